@@ -31,6 +31,9 @@ use swimos_utilities::encoding::WithLengthBytesCodec;
 
 // ------------------------------------------------------------------------------------------------ driver
 
+/// what an encoder's destination buffer already holds when a case starts (a frame never starts at offset 0)
+const OUT_PREFIX: [u8; 5] = [0xa5, 0x00, 0xff, 0x5a, 0x01];
+
 trait Drv {
     fn enc(&mut self, msg: &str) -> Option<Vec<u8>>;
     fn reset(&mut self);
@@ -42,6 +45,9 @@ struct G<M, E, D: Decoder> {
     mk: fn() -> D,
     dec: D,
     buf: BytesMut,
+    // the encoder's destination persists across messages (as in `FramedWrite`): a frame is APPENDED to a buffer that
+    // already holds earlier frames, and must leave them untouched (seeded change C10-r5m1)
+    out: BytesMut,
     dead: bool,
     parse: fn(&str) -> Option<M>,
     encode: fn(&mut E, M, &mut BytesMut) -> bool,
@@ -51,19 +57,26 @@ struct G<M, E, D: Decoder> {
 impl<M, E, D: Decoder> Drv for G<M, E, D> {
     fn enc(&mut self, msg: &str) -> Option<Vec<u8>> {
         let m = (self.parse)(msg)?;
-        let mut dst = BytesMut::new();
+        if self.out.len() > (1 << 20) {
+            self.out = BytesMut::from(&OUT_PREFIX[..]);
+        }
+        let before = self.out.to_vec();
         let enc = &mut self.encoder;
         let f = self.encode;
-        let ok = catch_unwind(AssertUnwindSafe(|| f(enc, m, &mut dst))).unwrap_or(false);
-        if ok {
-            Some(dst.to_vec())
+        let dst = &mut self.out;
+        let ok = catch_unwind(AssertUnwindSafe(|| f(enc, m, dst))).unwrap_or(false);
+        if ok && self.out.len() >= before.len() && self.out[..before.len()] == before[..] {
+            Some(self.out[before.len()..].to_vec())
         } else {
+            // failed, or the encoder modified bytes that were already in its destination buffer
+            self.out = BytesMut::from(&OUT_PREFIX[..]);
             None
         }
     }
     fn reset(&mut self) {
         self.dec = (self.mk)();
         self.buf = BytesMut::new();
+        self.out = BytesMut::from(&OUT_PREFIX[..]);
         self.dead = false;
     }
     fn feed(&mut self, chunk: &[u8]) -> String {
@@ -112,7 +125,7 @@ fn mk<M: 'static, E: 'static, D: Decoder + 'static>(
     encode: fn(&mut E, M, &mut BytesMut) -> bool,
     render: fn(&D::Item) -> String,
 ) -> Box<dyn Drv> {
-    Box::new(G { encoder, mk: mkd, dec: mkd(), buf: BytesMut::new(), dead: false, parse, encode, render })
+    Box::new(G { encoder, mk: mkd, dec: mkd(), buf: BytesMut::new(), out: BytesMut::from(&OUT_PREFIX[..]), dead: false, parse, encode, render })
 }
 
 // ------------------------------------------------------------------------------------------------ text
